@@ -4,6 +4,7 @@ CONSTANTS
   Vals = {"9", "1000"}
   Bases = {"N1"}
   XVals = {""}
+  XYVals = {""}
   GVals = {""}
   MenuIds = {"e1", "e5", "e7"}
   MaxExprs = 2
